@@ -197,6 +197,17 @@ func newSQLWalkCursor(node pgsql.SyntaxNode) (*Cursor[pgsql.SyntaxNode], error) 
 			}, nil
 		}
 
+	case *pgsql.RecordShape:
+		// TableAlias.Shape is a pointer; the TableAlias cursor adds it as a branch as-is
+		if branches, err := pgsqlSyntaxNodeSliceTypeConvert(typedNode.Columns); err != nil {
+			return nil, err
+		} else {
+			return &Cursor[pgsql.SyntaxNode]{
+				Node:     node,
+				Branches: branches,
+			}, nil
+		}
+
 	case pgsql.TypeCast:
 		return &Cursor[pgsql.SyntaxNode]{
 			Node:     node,
@@ -241,7 +252,7 @@ func newSQLWalkCursor(node pgsql.SyntaxNode) (*Cursor[pgsql.SyntaxNode], error) 
 			Branches: []pgsql.SyntaxNode{typedNode.Expression},
 		}, nil
 
-	case pgsql.CompoundIdentifier, pgsql.Operator, pgsql.Literal, pgsql.Identifier, pgsql.Parameter, *pgsql.Parameter:
+	case pgsql.CompoundIdentifier, pgsql.Operator, pgsql.Literal, pgsql.Identifier, pgsql.Parameter, *pgsql.Parameter, pgsql.Wildcard:
 		return &Cursor[pgsql.SyntaxNode]{
 			Node: node,
 		}, nil
